@@ -154,6 +154,22 @@ def relevant_divs(pid, divs):
         if c in comps: out.append(d)
     return out
 
+def known_oracle_finding(pid, of):
+    """A listed known finding, identified by its signature on the failing history (KNOWN_FINDINGS.json); anything else stays a violation.
+    C12 'parallel-edge-choice': the twin-mesh oracle fails AT a duplicate-avoiding edge lookup (add_edge without duplicates, add_face from
+    vertices) of a history that created edges with allowDuplicates=true before: which of several parallel edges is 'the existing one'
+    depends on whether the vertex incidence cache (list order) or the linear scan (index order) answers."""
+    if pid == "C12" and any(f.get("id") == "parallel-edge-choice" for f in fw.known_findings("C12")):
+        lines = [l.lstrip("@").split() for l in (of.get("lines") or []) if l.strip()]
+        if lines:
+            last, before = lines[-1], lines[:-1]
+            lookup = last[0] == "AddFV" or (last[0] == "AddE" and len(last) >= 4 and last[3] == "0")
+            dups = any(l[0] == "AddE" and len(l) >= 4 and l[3] != "0" for l in before)
+            if lookup and dups and ("definitions differ" in of.get("what", "") or "same call returns" in of.get("what", "")):
+                return ("add_edge(allowDuplicates=false) / add_face(vertices) on a vertex pair joined by parallel edges returns a different one of them with the "
+                        "vertex incidences off (lowest index) than on (first in cache order); replay corpus/kernel/known-findings.scripts#KF-C12-parallel-edge-choice")
+    return None
+
 def standard_kernel_check(ctx, pid, profiles, relevant_ops, oracle, count_quick=60, count_thorough=1500, nops=25,
                           extra_files=()):
     """corpus + generated scripts in lock step; fills ctx (violations / broken / coverage)."""
@@ -196,6 +212,10 @@ def judge(ctx, pid, kr, oracle):
     # 1. oracle failures on the implementation: concrete failing inputs
     for of in kr.oracle_fails:
         if of["oracle"] != pid: continue
+        kf = known_oracle_finding(pid, of)
+        if kf:
+            if kf not in ctx.known: ctx.known.append(kf)
+            continue
         ctx.violations.append({"kind": "input", "oracle": of["oracle"], "what": of["what"], "script_name": of["script"],
                                "first_bad_step": of["step"], "script": of.get("lines"),
                                "replay_hint": "bin/check %s --replay <this file>" % pid})
